@@ -15,6 +15,10 @@ NA = {
 }
 
 CHECKS = {
+ "C19": dict(level="exploration", design="§5 C19",
+   text="Seeded search over programs (scripts and modules, with/without host-provided imports, host holes with value / error / deferred answers, planted uncaught errors) each run by five drivers with one fixed host schedule: eval, prepare+step, prepare+step with seeded host activity between steps, C API tsrun_run, C API tsrun_step; observable histories (non-Continue results with payloads, console, final value or first line of the error text, exports) must be identical. A synchronous module text is also run as entry program, as host-provided dependency and as InternalModule::source: same exported values and console.",
+   note="Trusted: harness hosts (Rust and C side implement the same simplest answer policy). The C API has no provider or GC-threshold entry points, so programs avoid clock/randomness. Continue counts are not compared.",
+   technique="deterministic simulation: one fixed host schedule replayed through five driver hosts (incl. C API) and three module roles"),
  "C09": dict(level="exploration", design="§5 C09",
    text="Seeded search over module DAGs (2-8 modules, all import / re-export forms, diamonds, equivalent spellings, live counters) x 6 host delivery schedules per graph (any subset/order per round, early unrequested delivery, duplicate delivery, idle rounds); oracle = independent resolver + closed-form values: canonical unique requests with the right importer, nothing delivered is requested again, termination, each body exactly once after its imports, same result/exports/live bindings under every schedule.",
    note="Trusted: the reference resolver and closed-form model in the harness. Order among independent ready modules is not constrained (partial order only).",
